@@ -303,6 +303,176 @@ Proof.
     + destruct CH as [ls ->]. eexists; reflexivity.
   - destruct CH as [ls ->]. eexists; reflexivity.
 Qed.
+
+(* ------------------------------------------------------------------ cyclic formulas
+   (the repaired guard yields NO branch for a recursive call on the current path) *)
+Lemma in_Forall2_l {A B} (R : A -> B -> Prop) l1 l2 x :
+  Forall2 R l1 l2 -> In x l1 -> exists y, In y l2 /\ R x y.
+Proof.
+  induction 1 as [|a b l1 l2 Hab _ IH]; intros Hin; [destruct Hin|].
+  destruct Hin as [<-|Hin]; [exists b; split; [left; reflexivity|assumption]|].
+  destruct (IH Hin) as (y & Hy & Hr). exists y. split; [right; assumption|assumption].
+Qed.
+
+(* no branch is empty, on any graph *)
+Lemma eb_nonempty_gen : forall fuel anc index bs,
+  eb g fuel anc index = Some bs -> forall mb, In mb bs -> snd mb <> [].
+Proof.
+  induction fuel as [|f IH]; intros anc index bs H; [discriminate|].
+  rewrite eb_unfold in H. destruct (zmem index anc). { inversion H; subst. intros mb []. }
+  destruct index as [|p|p].
+  - inversion H; subst. intros mb [<-|[]]. discriminate.
+  - destruct (node_at g (Pos.to_nat p)) as [nd|] eqn:N; [|discriminate].
+    destruct nd as [id|cs|cs].
+    + inversion H; subst. intros mb [<-|[]]. discriminate.
+    + destruct cs as [|c0 cs0]; [discriminate|]. set (cs := c0 :: cs0) in *.
+      destruct (all_some (map (eb g f (anc ++ [Z.pos p])) cs)) as [ls|] eqn:Els; [|discriminate].
+      inversion H; subst bs. intros mb Hmb. apply in_map_iff in Hmb. destruct Hmb as (b & <- & Hb).
+      apply all_some_Forall2 in Els.
+      destruct ls as [|l r]; [inversion Els|].
+      apply product_cons_In in Hb. destruct Hb as (x & b' & -> & Hx & _).
+      inversion Els as [|? ? ? ? Hc0 _]; subst.
+      pose proof (IH _ _ _ Hc0 x Hx) as Hl.
+      cbn [conj_branch snd map concat]. intros E. apply app_eq_nil in E. destruct E as [E _]. exact (Hl E).
+    + destruct (all_some (map (eb g f (anc ++ [Z.pos p])) cs)) as [ls|] eqn:Els; [|discriminate].
+      inversion H; subst bs. intros mb Hmb. apply in_concat in Hmb. destruct Hmb as (l & Hl & Hmb).
+      apply all_some_Forall2 in Els.
+      assert (exists c, eb g f (anc ++ [Z.pos p]) c = Some l) as [c Hc].
+      { clear - Els Hl. induction Els as [|c l' cs' ls' Hc _ IHl]; [destruct Hl|].
+        destruct Hl as [<-|Hl]; [eauto|auto]. }
+      exact (IH _ _ _ Hc mb Hmb).
+  - inversion H; subst. intros mb [<-|[]]. discriminate.
+Qed.
+
+Section Cyclic.
+Variables (a : N -> bool) (s : nat -> bool).
+
+(* soundness: a true branch makes the node true, under every supported valuation, on every graph *)
+Lemma eb_sound_gen : supported g a s -> forall fuel anc index bs,
+  eb g fuel anc index = Some bs ->
+  existsb (fun mb => bval s (snd mb)) bs = true -> lit_val s index = true.
+Proof.
+  intros Hs. induction fuel as [|f IH]; intros anc index bs H Hb; [discriminate|].
+  rewrite eb_unfold in H. destruct (zmem index anc). { inversion H; subst. discriminate. }
+  destruct index as [|p|p].
+  - reflexivity.
+  - destruct (node_at g (Pos.to_nat p)) as [nd|] eqn:N; [|discriminate].
+    cbn [lit_val]. rewrite (s_node a s Hs _ _ N).
+    destruct nd as [id|cs|cs].
+    + inversion H; subst. cbn in Hb. rewrite andb_true_r, orb_false_r in Hb.
+      rewrite (s_node a s Hs _ _ N) in Hb. exact Hb.
+    + destruct cs as [|c0 cs0]; [discriminate|]. set (cs := c0 :: cs0) in *.
+      destruct (all_some (map (eb g f (anc ++ [Z.pos p])) cs)) as [ls|] eqn:Els; [|discriminate].
+      inversion H; subst bs. rewrite existsb_map in Hb. cbn [conj_branch snd] in Hb.
+      rewrite product_sem in Hb. cbn [eval_node]. apply all_some_Forall2 in Els.
+      clear H N. induction Els as [|c l cs' ls' Hc _ IHl]; [reflexivity|].
+      cbn [forallb] in *. apply andb_true_iff in Hb. destruct Hb as [H1 H2].
+      rewrite (IH _ _ _ Hc H1), (IHl H2). reflexivity.
+    + destruct (all_some (map (eb g f (anc ++ [Z.pos p])) cs)) as [ls|] eqn:Els; [|discriminate].
+      inversion H; subst bs. rewrite existsb_concat in Hb. cbn [eval_node]. apply all_some_Forall2 in Els.
+      clear H N. induction Els as [|c l cs' ls' Hc _ IHl]; [discriminate|].
+      cbn [existsb] in *. apply orb_true_iff in Hb. destruct Hb as [H1|H2].
+      * rewrite (IH _ _ _ Hc H1). reflexivity.
+      * rewrite (IHl H2). apply orb_true_r.
+  - inversion H; subst. cbn in Hb. rewrite andb_true_r, orb_false_r in Hb. exact Hb.
+Qed.
+
+(* completeness w.r.t. the least model of the reduct: a node that becomes true at Kleene stage n
+   has a proof that never revisits a node (its sub-proofs become true strictly earlier), and the
+   guard only cuts proofs that revisit a node *)
+Hypothesis Hm : is_model g a s.
+
+Lemma stage_le_model n k : fiter g a s noblk n k = true -> s k = true.
+Proof.
+  intros H. rewrite (Hm k). destruct (Nat.le_gt_cases n (length g)) as [L|L].
+  - exact (fiter_mono_le g a s noblk n (length g) L k H).
+  - rewrite <- (lfpf_stable_more g a s noblk n k) by lia. exact H.
+Qed.
+
+Definition anc_ok (n : nat) (anc : list Z) : Prop :=
+  forall x, In x anc -> (0 < x)%Z /\ fiter g a s noblk n (key_of x) = false.
+
+Lemma anc_ok_down n anc : anc_ok (S n) anc -> anc_ok n anc.
+Proof.
+  intros H x Hx. destruct (H x Hx) as [P F]. split; [exact P|].
+  destruct (fiter g a s noblk n (key_of x)) eqn:E; [|reflexivity].
+  apply (fiter_chain g a s noblk n) in E. congruence.
+Qed.
+
+Lemma eb_complete_nonpos n fuel anc index bs :
+  anc_ok n anc -> (index <= 0)%Z -> eb g fuel anc index = Some bs ->
+  rlit_val s (fiter g a s noblk n) index = true ->
+  existsb (fun mb => bval s (snd mb)) bs = true.
+Proof.
+  intros Ha Hi H Hv. destruct fuel as [|f]; [discriminate|]. rewrite eb_unfold in H.
+  assert (zmem index anc = false) as G.
+  { destruct (zmem index anc) eqn:E; [|reflexivity]. apply existsb_exists in E.
+    destruct E as (x & Hx & Ex). apply Z.eqb_eq in Ex. subst x. destruct (Ha _ Hx). lia. }
+  rewrite G in H. destruct index as [|p|p]; [|lia|].
+  - inversion H; subst. reflexivity.
+  - inversion H; subst. cbn in *. rewrite Hv. reflexivity.
+Qed.
+
+Lemma eb_complete_n : forall n fuel anc index bs,
+  anc_ok n anc -> eb g fuel anc index = Some bs ->
+  rlit_val s (fiter g a s noblk n) index = true ->
+  existsb (fun mb => bval s (snd mb)) bs = true.
+Proof.
+  induction n as [|n IHn]; intros fuel anc index bs Ha H Hv.
+  - destruct index as [|p|p].
+    + apply (eb_complete_nonpos 0 fuel anc 0%Z bs Ha); [lia|assumption|assumption].
+    + discriminate.
+    + apply (eb_complete_nonpos 0 fuel anc (Z.neg p) bs Ha); [lia|assumption|assumption].
+  - destruct index as [|p|p].
+    + apply (eb_complete_nonpos (S n) fuel anc 0%Z bs Ha); [lia|assumption|assumption].
+    + cbn [rlit_val] in Hv.
+      destruct (fiter g a s noblk n (Pos.to_nat p)) eqn:Ep.
+      { apply (IHn fuel anc (Z.pos p) bs (anc_ok_down _ _ Ha) H). exact Ep. }
+      destruct fuel as [|f]; [discriminate|]. rewrite eb_unfold in H.
+      assert (zmem (Z.pos p) anc = false) as G.
+      { destruct (zmem (Z.pos p) anc) eqn:E; [|reflexivity]. apply existsb_exists in E.
+        destruct E as (x & Hx & Ex). apply Z.eqb_eq in Ex. subst x. destruct (Ha _ Hx) as [_ F].
+        rewrite key_of_pos in F. congruence. }
+      rewrite G in H.
+      assert (Ha' : anc_ok n (anc ++ [Z.pos p])).
+      { intros x Hx. apply in_app_or in Hx. destruct Hx as [Hx|[<-|[]]].
+        - exact (anc_ok_down _ _ Ha x Hx).
+        - split; [lia|]. rewrite key_of_pos. exact Ep. }
+      pose proof Hv as Hv'. cbn [fiter] in Hv'. unfold fstep in Hv'.
+      destruct (node_at g (Pos.to_nat p)) as [nd|] eqn:N; [|discriminate].
+      cbn [noblk] in Hv'.
+      destruct nd as [id|cs|cs].
+      * inversion H; subst. cbn. rewrite (stage_le_model (S n) _ Hv). reflexivity.
+      * destruct cs as [|c0 cs0]; [discriminate|]. set (cs := c0 :: cs0) in *.
+        destruct (all_some (map (eb g f (anc ++ [Z.pos p])) cs)) as [ls|] eqn:Els; [|discriminate].
+        inversion H; subst bs. rewrite existsb_map. cbn [conj_branch snd]. rewrite product_sem.
+        cbn [eval_node] in Hv'. apply all_some_Forall2 in Els.
+        clear H N G. induction Els as [|c l cs' ls' Hc _ IHl]; [reflexivity|].
+        cbn [forallb] in *. apply andb_true_iff in Hv'. destruct Hv' as [H1 H2].
+        rewrite (IHn _ _ _ _ Ha' Hc H1), (IHl H2). reflexivity.
+      * destruct (all_some (map (eb g f (anc ++ [Z.pos p])) cs)) as [ls|] eqn:Els; [|discriminate].
+        inversion H; subst bs. rewrite existsb_concat.
+        cbn [eval_node] in Hv'. apply all_some_Forall2 in Els.
+        clear H N G. induction Els as [|c l cs' ls' Hc _ IHl]; [discriminate|].
+        cbn [existsb] in *. apply orb_true_iff in Hv'. destruct Hv' as [H1|H2].
+        -- rewrite (IHn _ _ _ _ Ha' Hc H1). reflexivity.
+        -- rewrite (IHl H2). apply orb_true_r.
+    + apply (eb_complete_nonpos (S n) fuel anc (Z.neg p) bs Ha); [lia|assumption|assumption].
+Qed.
+
+(* on EVERY graph (cyclic included): the disjunction of the branches is the value of the node in
+   the (stable / least) model *)
+Lemma eb_equiv_model fuel c bs :
+  eb g fuel [] c = Some bs -> existsb (fun mb => bval s (snd mb)) bs = lit_val s c.
+Proof.
+  intros H. destruct (lit_val s c) eqn:V.
+  - apply (eb_complete_n (length g) fuel [] c bs); [intros x []|exact H|].
+    destruct c as [|p|p]; cbn in *; [reflexivity| |exact V].
+    rewrite <- V. symmetry. apply (Hm (Pos.to_nat p)).
+  - destruct (existsb (fun mb => bval s (snd mb)) bs) eqn:E; [|reflexivity].
+    rewrite (eb_sound_gen (model_supported g a s Hm) fuel [] c bs H E) in V. discriminate.
+Qed.
+End Cyclic.
 End Branches.
 
 (* ------------------------------------------------------------------ the sort by mx *)
